@@ -1170,3 +1170,71 @@ Lemma nonvacuous_thm :
   run (w_boot TYPE_MONOSTABLE (FLAG_CFG_BTN + FLAG_FACTORY_RESET) :: [Time 500000; Notify 0 1] ++ w_ticks 250 ++ [Notify 0 0; Time 100000; Notify 0 1] ++ w_ticks 250)
     = [EnterCfg 5500000; Factory; CfgFlash 1 1 15; Restart (5500000 + 100000 + 5000000 + 500000)].
 Proof. vm_compute. repeat split; reflexivity. Qed.
+
+(* ------------------------------------------------------------------------------------------------ *)
+(* the known-finding class, precisely: a set-value message for a shutter channel changes calibration data exactly
+   when sv_shutter does, i.e. when the times encoded in DurationMS differ from the stored ones (or toggle
+   auto-calibration), or when a relay command aborts a running auto-calibration *)
+Lemma find_rs_nth l : forall ch k0 k r, find_rs l ch k0 = Some (k, r) -> k0 <= k /\ nth_error l (Z.to_nat (k - k0)) = Some r.
+Proof.
+  induction l as [|a l IH]; intros ch k0 k r H; cbn [find_rs] in H; [discriminate|].
+  destruct (r_ex a && (r_ch a =? ch)).
+  - inversion H; subst. split; [lia|]. replace (k - k) with 0 by lia. reflexivity.
+  - apply IH in H. destruct H as [H1 H2]. split; [lia|].
+    replace (Z.to_nat (k - k0)) with (S (Z.to_nat (k - (k0 + 1)))) by lia. exact H2.
+Qed.
+Lemma map_updn_same {A B} (f : A -> B) l : forall n r r2, nth_error l n = Some r -> f r2 = f r -> map f (updn l n r2) = map f l.
+Proof.
+  induction l as [|a l IH]; intros [|n] r r2 H E; cbn in *; try discriminate.
+  - inversion H; subst. congruence. - f_equal. eapply IH; eauto.
+Qed.
+Lemma set_value_inert_if s ch dur v k r :
+  find_rs (rss s) ch 0 = Some (k, r) -> calib (sv_shutter r dur v) = calib r -> calib_all (fst (set_value s ch dur v)) = calib_all s.
+Proof.
+  intros F E. unfold set_value. rewrite F. cbn [fst]. unfold calib_all. cbn [rss with_rss].
+  apply find_rs_nth in F. destruct F as [F1 F2]. unfold setn. destruct (k <? 0) eqn:K; [apply Z.ltb_lt in K; lia|].
+  replace (k - 0) with k in F2 by lia. eapply map_updn_same; eauto.
+Qed.
+Lemma sv_shutter_same r dur v :
+  band (r_flags r) CHFLAG_AUTOCAL = false -> sv_close_time dur = r_t2 r -> sv_open_time dur = r_t1 r ->
+  (r_step r = 0 \/ r_abr r = true \/ sv_is_position v = true) ->
+  calib (sv_shutter r dur v) = calib r.
+Proof.
+  intros A C O H. unfold sv_shutter, apply_new_times. rewrite A, C, O, !Z.eqb_refl. cbn [negb orb].
+  destruct (sv_is_position v) eqn:P; [reflexivity|]. unfold set_relay_abort.
+  destruct H as [H|[H|H]]; [|rewrite H; reflexivity|discriminate].
+  assert (E : (0 <? r_step r) = false) by (rewrite H; reflexivity). rewrite E, andb_false_r. reflexivity.
+Qed.
+
+Definition known_class_precise (s : st) (call : Z) (p : list Z) : Prop :=
+  exists k r,
+  (call = CALL_SET_VALUE /\ len p = NV_SIZE /\ find_rs (rss (pre_iter s)) (nthz p NV_OFF_CHANNEL) 0 = Some (k, r) /\
+     calib (sv_shutter r (le32 p NV_OFF_DURATION) (nthz p NV_OFF_VALUE)) <> calib r) \/
+  (call = CALL_GROUP_SET_VALUE /\ len p = GNV_SIZE /\ find_rs (rss (pre_iter s)) (nthz p GNV_OFF_CHANNEL) 0 = Some (k, r) /\
+     calib (sv_shutter r (le32 p GNV_OFF_DURATION) (nthz p GNV_OFF_VALUE)) <> calib r).
+
+Lemma calib_eq_dec (a b : list Z) : {a = b} + {a <> b}.
+Proof. apply list_eq_dec. apply Z.eq_dec. Qed.
+
+Lemma no_other_message_touches_calibration_except_known_precise_thm : code_shape -> forall s call p,
+  live s -> ~ known_class_precise s call p ->
+  calib_all (fst (step s (Srv call p))) <> calib_all s ->
+  call = CALL_CALCFG_REQUEST /\ calcfg_gate p = true /\ s32 (le32 p REQ_OFF_COMMAND) = CMD_RECALIBRATE /\ nthz p REQ_OFF_AUTH <> 0 /\
+  existsb (rmatch (s32 (le32 p REQ_OFF_CHANNEL))) (rss (pre_iter s)) = true.
+Proof.
+  intros _ s call p L NK H. destruct (srv_touches_calibration_thm s call p L H) as [A|A]; [auto|]. exfalso.
+  pose proof (cf_calls consts_ok) as (C1 & C2 & C3 & C4 & C5 & C6).
+  rewrite (step_srv _ _ _ L) in H. unfold srv in H. rewrite <- (calib_pre_iter s) in H. set (s1 := pre_iter s) in *.
+  destruct (negb (srpc_up s1)); [cbn in H; congruence|].
+  destruct A as [(A1 & A2 & A3)|(A1 & A2 & A3)]; subst call; fold s1 in A3.
+  - rewrite (proj2 (Z.eqb_neq _ _) C4), Z.eqb_refl in H. apply Z.eqb_eq in A2. rewrite A2 in H.
+    destruct (find_rs (rss s1) (nthz p NV_OFF_CHANNEL) 0) as [[k r]|] eqn:F; [|congruence].
+    destruct (calib_eq_dec (calib (sv_shutter r (le32 p NV_OFF_DURATION) (nthz p NV_OFF_VALUE))) (calib r)) as [E|E].
+    + apply H. eapply set_value_inert_if; eauto.
+    + apply NK. exists k, r. left. apply Z.eqb_eq in A2. auto.
+  - rewrite (proj2 (Z.eqb_neq _ _) C5), (proj2 (Z.eqb_neq _ _) C6), Z.eqb_refl in H. apply Z.eqb_eq in A2. rewrite A2 in H.
+    destruct (find_rs (rss s1) (nthz p GNV_OFF_CHANNEL) 0) as [[k r]|] eqn:F; [|congruence].
+    destruct (calib_eq_dec (calib (sv_shutter r (le32 p GNV_OFF_DURATION) (nthz p GNV_OFF_VALUE))) (calib r)) as [E|E].
+    + apply H. eapply set_value_inert_if; eauto.
+    + apply NK. exists k, r. right. apply Z.eqb_eq in A2. auto.
+Qed.
